@@ -14,6 +14,7 @@ def showExc : PyExc → String
   | .valueError => "ValueError"
   | .runtimeError => "RuntimeError"
   | .indexError => "IndexError"
+  | .keyError => "KeyError"
 def showBool (b : Bool) : String := if b then "bool 1" else "bool 0"
 def resolveStub (b r : List Char) : List Char := "[".toList ++ b ++ "|".toList ++ r ++ "]".toList
 
